@@ -469,9 +469,22 @@ def model_rebuild(
     **kwargs,
 ):
     config = config or ConfigDict()
-    for c in classes.values():
-        if issubclass(c, ConfiguredBaseModel):
-            c.update_model_config(config)
+    configured = [c for c in classes.values() if issubclass(c, ConfiguredBaseModel)]
+    for c in configured:
+        c.update_model_config(config)
+    if kwargs.get("force"):
+        # The validator of a model embeds those of the models it mentions, also
+        # through the `RootModel` unions (which carry no configuration of their
+        # own). Forget all of them first, so that every model is regenerated from
+        # the updated configurations instead of being picked up as it was.
+        models = [c for c in classes.values() if issubclass(c, BaseModel)]
+        for c in models:
+            if "__pydantic_core_schema__" in c.__dict__:
+                delattr(c, "__pydantic_core_schema__")
+        for c in models:
+            c.model_rebuild(**kwargs)
+    else:
+        for c in configured:
             c.model_rebuild(**kwargs)
 
 
